@@ -69,7 +69,12 @@ class PolyFunction:
             line = ",".join(str(v) for v in re) + "|" + ",".join(str(v) for v in im) + "\n"
             os.write(self.record_fd, line.encode())
 
-    def __init__(self, polys, scalar_out: bool = False, record: bool = True, record_fd: int | None = None) -> None:
+    def __init__(
+        self, polys, scalar_out: bool = False, record: bool = True, record_fd: int | None = None, premap=None
+    ) -> None:
+        # premap: per component (lb, width) or None; the polynomials then act on t = (x - lb) / width
+        # (the function is defined in physical space, the polynomials in the normalised space)
+        self.premap = premap
         self.polys = polys
         self.scalar_out = scalar_out
         self.record = record
@@ -83,6 +88,11 @@ class PolyFunction:
         x = np.atleast_1d(np.asarray(x))
         if np.iscomplexobj(x):
             z = [(_F(v.real), _F(v.imag)) for v in x]
+            if self.premap:
+                z = [
+                    (a, b) if pm is None else ((a - pm[0]) / pm[1], b / pm[1])
+                    for (a, b), pm in zip(z, self.premap)
+                ]
             if self.record:
                 self.calls.append((tuple(a for a, _ in z), tuple(b for _, b in z)))
             self._log([a for a, _ in z], [b for _, b in z])
@@ -97,6 +107,8 @@ class PolyFunction:
             res = np.array(out, dtype=complex)
         else:
             xs = [_F(v) for v in x]
+            if self.premap:
+                xs = [a if pm is None else (a - pm[0]) / pm[1] for a, pm in zip(xs, self.premap)]
             if self.record:
                 self.calls.append((tuple(xs), tuple(Fraction(0) for _ in xs)))
             self._log(xs, [Fraction(0) for _ in xs])
